@@ -309,6 +309,10 @@ class MessageQueue(Entity):
         if message_id in self._pending_queue:
             self._pending_queue.remove(message_id)
         self._in_flight[message_id] = msg
+        # This delivery supersedes any redelivery timer still outstanding for
+        # the message (a poll may pick it up before the timer fires); a later
+        # timeout of *this* delivery must be able to schedule a new one.
+        self._redelivery_scheduled.discard(message_id)
 
         # Track delivery latency
         created_time = msg.created_at.to_seconds() if msg.created_at else 0
